@@ -8,7 +8,7 @@ From Coq Require Import NArith ZArith List Bool String.
 From Pq Require Import Base.Bytes Thrift.Varint Thrift.Compact Thrift.Idl Thrift.IdlPinned
   Impl.CThrift Impl.CThriftSpec Impl.CThriftTyped Proofs.CThriftTypedProofs Proofs.CompactProofs Proofs.CThriftProofs Proofs.CThriftRead
   Proofs.CThriftRoundtrip Proofs.CThriftMain Proofs.CThriftReser Proofs.CThriftTotal Proofs.CThriftRepaired
-  Impl.KV Impl.ParseHeader Proofs.ParseHeaderProofs Proofs.CThriftPickle.
+  Impl.KV Impl.ParseHeader Proofs.ParseHeaderProofs Proofs.CThriftPickle Proofs.CThriftMinimal.
 Import ListNotations.
 Open Scope list_scope.
 Open Scope N_scope.
@@ -163,6 +163,43 @@ Theorem C10_field14_kept_repaired : CThriftSpec.dom ids14 63 w14 = true /\
   exists b d', (forall cap0, to_bytes_grow ids14 cap0 w14 = OBytes b) /\ from_buffer b = Some (d', []) /\ obj_eq w14 d' = true.
 Proof. exact field14_kept. Qed.
 Print Assumptions C10_field14_kept_repaired.
+
+(* ---- wave 3: MINIMAL witnesses of the open .pyx findings, each next to the nearest input that is handled correctly (the extent of
+   each defect = what its known-finding signature may suppress; the harness suppresses a failing case only when the bytes are exactly
+   what this model of the pinned serialiser produces) *)
+Theorem C10_field14_minimal_refuted :
+  ser (PDict false None [(14%Z, PInt 0)]) = Some [0] /\ ser (PDict false None [(13%Z, PInt 0)]) = Some [214; 0; 0].
+Proof. exact field14_minimal. Qed.
+Print Assumptions C10_field14_minimal_refuted.
+
+Theorem C10_small_ints_minimal_refuted :
+  wr (TStruct [(1, TI8 0)]) = [19; 0; 0] /\ reser (TStruct [(1, TI8 0)]) = Some [22; 0; 0] /\
+  wr (TStruct [(1, TI16 0)]) = [20; 0; 0] /\ reser (TStruct [(1, TI16 0)]) = Some [22; 0; 0] /\
+  reser (TStruct [(1, TI32 0)]) = Some (wr (TStruct [(1, TI32 0)])) /\
+  reser (TStruct [(1, TI64 0)]) = Some (wr (TStruct [(1, TI64 0)])).
+Proof. exact small_ints_minimal. Qed.
+Print Assumptions C10_small_ints_minimal_refuted.
+
+Theorem C10_empty_list_minimal_refuted :
+  wr (TStruct [(1, TList 12 [])]) = [25; 12; 0] /\
+  ser (PDict false None [(1%Z, PList [])]) = Some [25; 0; 0] /\
+  reser (TStruct [(1, TList 12 [TStruct []])]) = Some (wr (TStruct [(1, TList 12 [TStruct []])])).
+Proof. exact empty_list_minimal. Qed.
+Print Assumptions C10_empty_list_minimal_refuted.
+
+Theorem C10_truncation_minimal_refuted :
+  ser (PDict false None [(1%Z, PInt 0); (2%Z, PInt 0)]) = Some [22; 0; 22; 0; 0] /\
+  to_bytes 4 (PDict false None [(1%Z, PInt 0); (2%Z, PInt 0)]) = OBytes [22; 0; 22; 0] /\
+  to_bytes 5 (PDict false None [(1%Z, PInt 0); (2%Z, PInt 0)]) = OBytes [22; 0; 22; 0; 0].
+Proof. exact truncation_minimal. Qed.
+Print Assumptions C10_truncation_minimal_refuted.
+
+Theorem C10_overflow_minimal_refuted :
+  ser (PDict false None [(1%Z, PBytes [0])]) = Some [24; 1; 0; 0] /\
+  to_bytes 2 (PDict false None [(1%Z, PBytes [0])]) = OOob /\
+  to_bytes 4 (PDict false None [(1%Z, PBytes [0])]) = OBytes [24; 1; 0; 0].
+Proof. exact overflow_minimal. Qed.
+Print Assumptions C10_overflow_minimal_refuted.
 
 (* ---- wave 3: the pickle path.  __reduce_ex__ = (from_buffer, (bytes(to_bytes()), name)): unpickling is from_buffer o to_bytes.
    For every object of the round-trip class (any struct, any number of fields / elements, any string length) whose serialisation
